@@ -461,7 +461,9 @@ class C08(core.Check):
             '(screen text) statement in a Session with the format string and the values set as variables '
             '(integers, exactly representable singles and doubles, byte strings); output bytes + error number '
             'compared with the Coq model and checked by an independent reference (regex grammar, Fraction '
-            'rounding). non-trivial = no error and at least one field formatted; distinct by hash')
+            'rounding); equal values of a case are one variable (scalar or array element) so the same variable '
+            'is formatted repeatedly, and every float variable is read back after the statement (must be '
+            'unchanged). non-trivial = no error and at least one field formatted; distinct by hash')
     histogram = None
 
     # ------------------------------------------------------------------ pools
@@ -588,8 +590,23 @@ class C08(core.Check):
             f += rng.choice([b'$', b'*', b'_', b'+', b'\\', b'^'])
         return f[:255]
 
-    def _case(self, fmt, vals, trailing=0, dev='file', sep=';'):
-        return {'f': list(fmt), 'v': vals, 't': trailing, 'dev': dev, 'sep': sep}
+    def _case(self, fmt, vals, trailing=0, dev='file', sep=';', arr=0):
+        return {'f': list(fmt), 'v': vals, 't': trailing, 'dev': dev, 'sep': sep, 'arr': arr}
+
+    def _repeat_some(self, vals):
+        """make some numeric values of the list re-occur: equal values are ONE variable in the statement"""
+        rng = self.rng
+        nums = [v for v in vals if v[0] in '!#%']
+        if not nums:
+            return vals
+        out = []
+        for v in vals:
+            if v[0] in '!#%' and out and rng.random() < 0.4:
+                prev = [w for w in out if w[0] in '!#%']
+                out.append(rng.choice(prev) if prev else v)
+            else:
+                out.append(v)
+        return out
 
     # ------------------------------------------------------------------ cases
     def corpus(self):
@@ -601,6 +618,10 @@ class C08(core.Check):
             C(b'## $', [['%', 5]]), C(b'##*', [['%', 5]]), C(b'$', [['%', 5]]), C(b'## $', [['%', 5], ['%', 6]]),
             C(b'##.##^^^^', [S('9.996')]), C(b'##^^^^', [['%', 96]]), C(b'##.#^^^^', [D('9.95')]),
             C(b'###^^^^', [S('0.996')]),
+            # seeded C08d: iabs() without clone() cleared the sign of the variable itself (demo.py vectors)
+            C(b'###.#', [S('-5.5'), S('-5.5')]), C(b'+##.## ', [D('-2.25'), D('-2.25')]),
+            C(b'###-', [S('-7'), S('-7')], arr=1), C(b'**##.##^^^^', [D('-2.25')]),
+            C(b'##.# ', [S('-1.5'), S('2.5'), S('-1.5')], arr=1, sep=','),
             # seeded: trailing sign appended after the leading-zero decision (width clause)
             C(b'.##-', [S('0.5')]), C(b'.##+', [S('-0.5')]), C(b'.##-', [['%', 0]]), C(b'.#^^^^-', [S('0.5')]),
             # D08d
@@ -672,6 +693,16 @@ class C08(core.Check):
             for i in range(0, len(vals), step):
                 out.append(self._case(sh + b'|', vals[i:i + step]))
                 hist['one_field_sweep'] += 1
+        # the same variable (scalar or array element) formatted several times in one statement, every sign
+        # mode, negative and positive singles/doubles: v v w v
+        fl = [v for v in self._pool if v[0] in '!#' and v[1] != 0]
+        neg = [v for v in fl if v[1] < 0] + [[v[0], -v[1], v[2]] for v in fl if v[1] > 0][:40]
+        shapes_r = [b'###.#', b'+##.##', b'###-', b'###+', b'**##.##^^^^', b'$$##.#-', b'**#.#', b'+#.#^^^^']
+        for i, v in enumerate(neg):
+            sh = shapes_r[i % len(shapes_r)]
+            w = fl[(7 * i + 3) % len(fl)]
+            out.append(self._case(sh + b' ', [v, v, w, v], arr=i % 2, sep=';' if i % 3 else ','))
+            hist['same_variable_again'] = hist.get('same_variable_again', 0) + 1
         while len(out) < n:
             r = rng.random()
             if r < 0.62:
@@ -685,7 +716,10 @@ class C08(core.Check):
                     if rng.random() < 0.04:
                         k = 's' if k == 'n' else 'n'      # type mismatch
                     vals.append(self._rand_num() if k == 'n' else self._rand_str())
-                out.append(self._case(fmt, vals, trailing=int(rng.random() < 0.2), sep=rng.choice([';', ';', ','])))
+                if rng.random() < 0.3:
+                    vals = self._repeat_some(vals)
+                out.append(self._case(fmt, vals, trailing=int(rng.random() < 0.2), sep=rng.choice([';', ';', ',']),
+                                      arr=int(rng.random() < 0.3)))
                 hist['structured'] += 1
             elif r < 0.8:
                 # malformed / random format text over the specifier alphabet
@@ -718,7 +752,10 @@ class C08(core.Check):
                 # one numeric field, many values (cycling) with literals
                 fmt = self._format(['n'])
                 vals = [self._rand_num() for _ in range(rng.randrange(2, 7))]
-                out.append(self._case(fmt, vals, trailing=int(rng.random() < 0.2), sep=rng.choice([';', ','])))
+                if rng.random() < 0.5:
+                    vals = self._repeat_some(vals)
+                out.append(self._case(fmt, vals, trailing=int(rng.random() < 0.2), sep=rng.choice([';', ',']),
+                                      arr=int(rng.random() < 0.3)))
                 hist['mixed'] += 1
         self.histogram = hist
         self._ohist = {}
@@ -793,8 +830,18 @@ class C08(core.Check):
             raise Refused('PRINT USING needs at least one value (Missing operand is a parser matter)')
         s = self._session()
         s.set_variable('F$', fmt)
+        # equal values share ONE variable, so a value that occurs several times in the list is the same
+        # variable formatted several times; with case['arr'] the floats live in array elements
         names = []
+        byval = {}
+        floats = []          # (name bytes, indices, stored bytes)
+        nfloat = len(set(repr(v) for v in case['v'] if v[0] in '!#'))
+        use_arr = bool(case.get('arr')) and nfloat <= 10
         for i, v in enumerate(case['v']):
+            key = repr(v)
+            if key in byval:
+                names.append(byval[key])
+                continue
             if v[0] == '$':
                 nm = 'S%d$' % i
                 s.set_variable(nm, bytes(v[1]))
@@ -802,12 +849,20 @@ class C08(core.Check):
                 nm = 'I%d%%' % i
                 s.set_variable(nm, v[1])
             else:
-                nm = 'V%d%s' % (i, v[0])
                 # exact MBF bytes (Session.set_variable goes through a lossy float conversion)
-                x = s._impl.values.from_bytes(mbf_bytes(v))
+                b = mbf_bytes(v)
+                x = s._impl.values.from_bytes(b)
                 if Fraction(x.to_value()) != val_fraction(v):
                     raise Refused('value %r is not stored exactly' % (v,))
-                s._impl.memory.set_variable(nm.encode(), [], x)
+                if use_arr:
+                    base, idx = ('AR' + v[0]).encode(), [len(floats)]
+                    nm = 'AR%s(%d)' % (v[0], idx[0])
+                else:
+                    base, idx = ('V%d%s' % (i, v[0])).encode(), []
+                    nm = 'V%d%s' % (i, v[0])
+                s._impl.memory.set_variable(base, idx, x)
+                floats.append((base, idx, b, i))
+            byval[key] = nm
             names.append(nm)
         args = case['sep'].join(names) + (case['sep'] if case['t'] else '')
         if case['dev'] == 'file':
@@ -827,9 +882,15 @@ class C08(core.Check):
             data = before.encode('latin-1')
             if err is None and case['t']:
                 s.execute('PRINT')
+        # observation after the statement: PRINT USING must leave its arguments alone
+        mut = 0
+        for base, idx, b, i in floats:
+            now = bytes(s._impl.memory.view_or_create_variable(base, idx).to_bytes())
+            if now != b and not mut:
+                mut = i + 1
         if err is not None:
-            return [1, err] + pack(data)
-        return [0, 0] + pack(data)
+            return [1, err] + pack(data) + [mut]
+        return [0, 0] + pack(data) + [mut]
 
     # ------------------------------------------------------------------ model
     _vsess = None
@@ -860,8 +921,9 @@ class C08(core.Check):
 
     def model_term(self, case):
         vals = '[' + ';'.join(self._coq_val(v) for v in case['v']) + ']'
-        return '(enc_stream [13;10] (print_using %s %s %s))' % (hexs(case['f']), vals,
-                                                                'true' if case['t'] else 'false')
+        # the trailing 0: the model's values are immutable - no argument is changed by the statement
+        return '(enc_stream [13;10] (print_using %s %s %s) ++ [0])' % (hexs(case['f']), vals,
+                                                                       'true' if case['t'] else 'false')
 
     # ------------------------------------------------------------------ oracle
     def nontrivial(self, case, out):
@@ -870,8 +932,12 @@ class C08(core.Check):
     def oracle(self, case, out):
         if out[0] == 2:
             return 'host exception class %d escaped PRINT USING' % out[1]
+        if out[-1] != 0:
+            v = case['v'][out[-1] - 1]
+            return ('PRINT USING changed its argument: the variable holding value #%d (%s) has different bytes '
+                    'after the statement (output %r)' % (out[-1], float(val_fraction(v)), unpack(out[2:-1])))
         try:
-            stats = ref_check(bytes(case['f']), case['v'], bool(case['t']), out[0], out[1], unpack(out[2:]))
+            stats = ref_check(bytes(case['f']), case['v'], bool(case['t']), out[0], out[1], unpack(out[2:-1]))
         except Mismatch as e:
             return str(e)
         oh = getattr(self, '_ohist', None)
